@@ -197,6 +197,27 @@ class InsertCb:
         self.log.inserted = getattr(self.log, 'inserted', 0) + 1
 
 
+class StopInReleaseWindowCb:
+    """Workload callback (finish callback of a resource-holding processor): every k-th finish it schedules, for this
+    very instant, a planned stop at a priority just below the machine's release check (so the stop lands between
+    FINISH_PROCESSING and the release of the reservation), a failure half a time unit later and a restore after one."""
+
+    def __init__(self, every):
+        self.every, self.n = every, 0
+
+    def __call__(self, dev, part):
+        if instrument.PROBING:
+            return
+        self.n += 1
+        if self.n % self.every:
+            return
+        from simprocesd.model.simulation import EventType
+        env = dev.env
+        env.schedule_event(env.now, dev.id, dev.shutdown, EventType.RELEASE_RESERVED_RESOURCES + 0.5)
+        dev.schedule_failure(env.now + 0.5)
+        env.schedule_event(env.now + 1.0, -2, dev.restore_functionality, EventType.RESTORE)
+
+
 class RestoredCb:
     def __init__(self, log, dev_id, idx):
         self.log, self.dev_id, self.idx = log, dev_id, idx
@@ -645,6 +666,8 @@ def build(spec, bus=None, script=True, system=None, known=None):
                 d.add_restored_callback(RestoredCb(log, i, n))
             if it.get('refuse'):
                 d.add_shutdown_callback(RefuseCb(log, i, it['refuse']))
+            if it.get('stop_in_release_window'):
+                d.add_finish_processing_callback(StopInReleaseWindowCb(it['stop_in_release_window']))
             if it.get('insert_part'):
                 d.add_finish_processing_callback(InsertCb(log, i, it['insert_part']))
             if it.get('raise_at'):
